@@ -95,6 +95,10 @@ type Trigger struct {
 	Phase  string        `json:"phase"`
 	Delay  time.Duration `json:"delay,omitempty"`
 	Action Action        `json:"action"`
+	// Follow is a second action fired FollowDelay after the first one was fired (e.g. Stop, then Start
+	// again while the operation that triggered the Stop is still in flight).
+	Follow      *Action       `json:"follow,omitempty"`
+	FollowDelay time.Duration `json:"follow_delay,omitempty"`
 }
 
 // Window: the instance cannot reach the store in [From, To).
@@ -118,6 +122,7 @@ const (
 	ActProbe      = "probe"       // ValidateToken
 	ActProbeDem   = "probedemote" // ValidateTokenOrDemote
 	ActSetHandler = "sethandler"  // re-register the callbacks (C20)
+	ActCancelCtx  = "cancelctx"   // cancel the context that was passed to the object's last Start (no Stop call)
 )
 
 type Action struct {
